@@ -351,6 +351,15 @@ def run(case, res):
                 expected[o] = col
         buf = io.StringIO()
         names = list(chunk[0].keys())
+        # the documented stop_after_first_error option, on the last batch only (the twin then
+        # legitimately executes fewer steps): it must stop right after the first step that has
+        # a mismatch and report exactly that step's mismatches
+        mine = [p for p in planted if p[4] == pos]
+        stop_flag = bool(mine) and pos + bsz == ncyc and (fire is None) and sum(case['batches']) % 2 == 0
+        if stop_flag:
+            first_bad = min(p[0] for p in mine)
+            planted = [p for p in planted if p[4] != pos or p[0] == first_bad]
+            res.probes.hit('stop_after_first_error')
         try:
             if names:
                 prov = {k: [c[k] for c in chunk] for k in names}
@@ -364,9 +373,10 @@ def run(case, res):
                         if all(x == '?' or 0 <= x <= 9 for x in expected[o]):
                             expected[o] = ''.join(str(x) for x in expected[o])
                             res.probes.hit('string_form_expected')
-                twin.step_multiple(prov, expected, file=buf)
+                twin.step_multiple(prov, expected, file=buf, stop_after_first_error=stop_flag)
             else:
-                twin.step_multiple(nsteps=bsz, expected_outputs=expected, file=buf)
+                twin.step_multiple(nsteps=bsz, expected_outputs=expected, file=buf,
+                                   stop_after_first_error=stop_flag)
         except PlantedAssertion:
             if fire is None or not (pos <= fire < pos + bsz):
                 return Violation('rtl_assert', 'raised_early_in_step_multiple',
@@ -380,6 +390,16 @@ def run(case, res):
             return Violation('report', 'unparsable', {'err': str(e), 'text': buf.getvalue()[:300]}, [kind])
         report_cells.extend((s, n, e, a, pos) for (s, n, e, a) in cells)
         res.probes.hit('step_multiple_batches')
+        if stop_flag:
+            want_hdr = 'Unexpected output (stopped after step with first error):'
+            if not buf.getvalue().startswith(want_hdr):
+                return Violation('report', 'stop_after_first_error_header',
+                                 {'text': buf.getvalue()[:120]}, [kind])
+            if world.tracelen(twin) != pos + first_bad + 1:
+                return Violation('step_multiple', 'did_not_stop_after_first_error',
+                                 {'trace_len': world.tracelen(twin), 'expected': pos + first_bad + 1}, [kind])
+            pos += first_bad + 1
+            break
         pos += bsz
     if fire is not None and pos <= fire:
         return Violation('rtl_assert', 'not_raised_in_step_multiple', {'fire': fire}, [kind])
